@@ -72,7 +72,7 @@ impl ExtSpec {
         let n = self.entries.len();
         for (i, e) in self.entries.iter().enumerate() {
             if e.id < 0x100 {
-                t.t[e.id as usize] = if self.final_ext && i + 1 == n { Mand::Final(e.data.len() as u8) } else { Mand::NonFinal(e.data.len() as u8) };
+                t.t[e.id as usize] = if self.final_ext && i + 1 == n { Mand::Final(e.data.len()) } else { Mand::NonFinal(e.data.len()) };
             }
         }
         t
@@ -216,6 +216,18 @@ impl Sender {
         let plen = spec.pdu.len();
 
         // ------------------------------------------------------------------ C09: totality + atomicity
+        // C11: after the first fragment, ANY buffer of at least 7 bytes makes progress (an end packet or >= 1
+        // payload byte): a continuation call on a valid context with such a buffer may neither fail nor panic
+        if mask & O_C11 != 0 && spec.func == Func::Frag && bl >= 7 && spec.pdu.len() <= 65535 {
+            let c = spec.ctx.unwrap();
+            if (c.len_pdu_frag() as usize) <= spec.pdu.len() && !out.ok() {
+                let what = match &out.res {
+                    Err(_) => "panicked",
+                    _ => "was refused",
+                };
+                rep.violation("C11", sig(&format!("buffer-of-7-or-more-{}", if out.res.is_err() { "panics" } else { "rejected" })), || format!("{} {}: {}", Self::describe(spec), what, enc_res_str(&out.res)), replay);
+            }
+        }
         match &out.res {
             Err(p) => {
                 if mask & O_C09 != 0 {
@@ -601,7 +613,8 @@ pub fn gen_chain(rng: &mut Rng, n: usize, final_ext: bool) -> ExtSpec {
                 }
             }
             used_mand.push(id);
-            let dl = rng.below(9);
+            // mostly 0..=8 data bytes; rarely a large block (lengths around the 8-bit, 12-bit and 16-bit limits)
+            let dl = if rng.chance(1, 40) { [255usize, 256, 300, 4089, 4096, 65535, 65536, 70000][rng.below(8)] } else { rng.below(9) };
             entries.push(ExtEntry { id, data: rng.bytes(dl) });
         } else {
             let hlen = 1 + rng.below(5);
